@@ -44,6 +44,18 @@ CHECKS['C08'] = dict(
          'running random deform/access histories on real objects.',
     technique='Coq theorems (GL(2,2) mask algebra, state-machine invariant) + kernel-evaluated image check on dumped tables')
 
+CHECKS['C02'] = dict(
+    category='proof',
+    text=('Unbounded Coq theorems on the model of to_bsf/from_bsf/matrix construction: dict<->BSF bijection (both directions, Y '
+          'included), bit-level characterisation of the image, foreign keys are rejected, row i = image of the i-th stabilizer '
+          'operator, CSS masks partition the rows, X-(Z-)syndrome depends only on the Z-(X-)part. Kernel-evaluated per dumped instance '
+          '(library grid + random user-defined subclasses): coordinates distinct/disjoint, every row non-empty and equal to the '
+          'model image of get_stabilizer(loc), masks/blocks equal the model, implementation round trips equal the model. Hash-seed '
+          'independence is a differential run (3 seeds).'),
+    design_ref='DESIGN.md section 5 C02',
+    note=TB + 'Model (Operator.v) is hand-written and tied per instance; hash-randomisation clause is tested, not proved (CPython runtime).',
+    technique='Coq theorems (dict/BSF bijection) + kernel-evaluated faithful-image check on dumped tables')
+
 NOT_APPLICABLE = {}
 
 PENDING = ['C02', 'C03', 'C04', 'C05', 'C06', 'C07', 'C08', 'C09', 'C10', 'C11', 'C12', 'C13', 'C14', 'C15',
